@@ -251,7 +251,13 @@ type c16HdrCase struct {
 	Full bool `json:"all_byte3"`
 }
 
-var c16Byte3Quick = [...]byte{0x00, 0x0F, 0x10, 0x1F, 0x20, 0x2F, 0x30, 0x3F, 0x40, 0x47, 0x80, 0xC0, 0xCF, 0xD0, 0xE0, 0xFF}
+// every combination of scrambling control and adaptation_field_control with continuity counter 0, 7 and 15
+var c16Byte3Quick = func() (out []byte) {
+	for hi := 0; hi < 16; hi++ {
+		out = append(out, byte(hi<<4), byte(hi<<4|0x07), byte(hi<<4|0x0F))
+	}
+	return
+}()
 
 func c16CheckHdr(c c16HdrCase) engine.Result {
 	var res engine.Result
@@ -570,7 +576,7 @@ func init() {
 			},
 			&engine.Enum[c16HdrCase]{
 				Name: "sync-every-header",
-				Rule: "stream 00 47 b1 b2 b3 + a 188-byte null packet for every b1, b2 in 0..255 and b3 from 16 values covering every afc and scrambling value (thorough: every b3; case = b1, Check loops b2,b3), bufio sizes 16 and 4096, whole-stream reads (plus IsSynced itself on a reader at the candidate and one byte before it: answer, nothing consumed): offset 1 iff afc!=0 and PID outside 4..15 per the reference header parser, otherwise the next plausible position of the reference scan (normally the null packet at 5); reader position as above; non-trivial = candidate header that must be rejected",
+				Rule: "stream 00 47 b1 b2 b3 + a 188-byte null packet for every b1, b2 in 0..255 and b3 from 48 values: EVERY combination of scrambling control and adaptation_field_control x continuity counter 0/7/15 (thorough: every b3; case = b1, Check loops b2,b3), bufio sizes 16 and 4096, whole-stream reads (plus IsSynced itself on a reader at the candidate and one byte before it: answer, nothing consumed): offset 1 iff afc!=0 and PID outside 4..15 per the reference header parser, otherwise the next plausible position of the reference scan (normally the null packet at 5); reader position as above; non-trivial = candidate header that must be rejected",
 				Gen: func(r *engine.Run, emit func(c16HdrCase)) {
 					for b1 := 0; b1 < 256; b1++ {
 						emit(c16HdrCase{B1: b1, Full: r.Thorough()})
